@@ -53,7 +53,12 @@ def unparse(node):
 
 def loop_signature(node):
     if isinstance(node, ast.For):
-        return f'for {ast.unparse(node.target)} in {ast.unparse(node.iter)}'
+        it = node.iter
+        # `range(0, n)` and `range(n)` are the same loop (a frequent harmless edit)
+        if isinstance(it, ast.Call) and isinstance(it.func, ast.Name) and it.func.id == 'range' and len(it.args) == 2 and not it.keywords \
+                and isinstance(it.args[0], ast.Constant) and it.args[0].value == 0:
+            it = ast.Call(func=it.func, args=[it.args[1]], keywords=[])
+        return f'for {ast.unparse(node.target)} in {ast.unparse(it)}'
     if isinstance(node, ast.While):
         return f'while {ast.unparse(node.test)}'
     raise TypeError(node)
